@@ -75,6 +75,75 @@ def breakSimpleNode (src : Store) : Nat → Store → Int → List Nat → Excep
 def breakSimple (src : Store) (fuel : Nat) (T : Store) (roots : List Key) : Except CErr (Store × List Key) :=
   childrenWith (fun T c => breakSimpleNode src fuel T c []) T roots
 
+/-! ### a structurally recursive copy of `breakNode`
+
+`Cycles.breakNode / breakCompound / breakChildren` are mutually recursive and compiled by well-founded recursion, so
+they do not reduce in the kernel (`decide` cannot evaluate them).  `breakNodeS` is the same code with the child loop as
+a list functional; `ProbLogProofs.Unroll.breakNode_eq_S` proves `breakNode = breakNodeS`, which makes concrete
+witnesses about `breakNode` checkable by `decide`. -/
+
+/-- `breakChildren` with the recursive call abstracted. -/
+def childrenR (f : BC → Int → Except CErr Res) :
+    BC → List Key → List Key → List Nat → List Nat → Except CErr (BC × List Key × List Nat × List Nat)
+  | st, [], acc, cb, content => .ok (st, acc, cb, content)
+  | _, none :: _, _, _, _ => .error (.badNode 0)
+  | st, some c :: rest, acc, cb, content =>
+    if c = 0 then childrenR f st rest (acc ++ [some 0]) cb content
+    else
+      match f st c with
+      | .error e => .error e
+      | .ok r => childrenR f r.st rest (acc ++ [r.key]) (union cb r.cb) (union content r.content)
+
+/-- `breakCompound` after the child loop. -/
+def compoundR (nodeid : Nat) (negative : Bool) (kind : Kind) (name : Option Name)
+    (rc : Except CErr (BC × List Key × List Nat × List Nat)) : Except CErr Res :=
+  match rc with
+  | .error e => .error e
+  | .ok (st1, keys, ccb, ccontent) =>
+    let newname : Option Name := match name with
+      | some nm => if ccb.isEmpty then some nm else some (cbName nm (transGet st1.trans nodeid).length)
+      | none => none
+    let r := match kind with
+      | .conj => st1.target.addAnd keys newname
+      | .disj => st1.target.addOr keys true newname
+    match r with
+    | .error e => .error (.builder e)
+    | .ok (t', k) =>
+      let own : List Nat := if isProbabilistic k then [nodeid] else []
+      let st' : BC := ⟨t', transAppend st1.trans nodeid ⟨k, ccb, diff ccontent ccb⟩⟩
+      .ok ⟨st', if negative then negate k else k, ccb, union own ccontent⟩
+
+def breakNodeS (src : Store) (ev : Option (List (Nat × Key))) :
+    Nat → BC → Int → List Nat → Bool → Except CErr Res
+  | 0, _, _, _, _ => .error .fuel
+  | fuel + 1, st, node, ancestors, isEv =>
+    let negative := node < 0
+    let nodeid := node.natAbs
+    let ret (k : Key) : Key := if negative then negate k else k
+    let evv := evValue ev nodeid
+    if !isEv && !isProbabilistic evv then
+      .ok ⟨st, ret evv, [], []⟩
+    else if ancestors.contains nodeid then
+      .ok ⟨st, none, [nodeid], []⟩
+    else
+      let ancset := ancestors ++ [nodeid]
+      match (transGet st.trans nodeid).find? (fun e => subset e.cb ancset && disjoint ancset e.cn) with
+      | some e => .ok ⟨st, ret e.newnode, e.cb, e.cn⟩
+      | none =>
+        match src.nodes[nodeid - 1]? with
+        | none => .error (.badNode node)
+        | some (.atom ident group isExtra name) =>
+          let w := (lookup src.weights nodeid).getD .neutral
+          let (t', k) := st.target.addAtom ident (weightClass w) w group name true isExtra
+          let st' : BC := ⟨t', transAppend st.trans nodeid ⟨k, [], []⟩⟩
+          .ok ⟨st', ret k, [], []⟩
+        | some (.conj children name) =>
+          compoundR nodeid negative .conj name
+            (childrenR (fun st c => breakNodeS src ev fuel st c ancset isEv) st children [] [] [])
+        | some (.disj children name) =>
+          compoundR nodeid negative .disj name
+            (childrenR (fun st c => breakNodeS src ev fuel st c ancset isEv) st children [] [] [])
+
 /-! ### side conditions -/
 
 /-- 1-based index of the first atom node with identifier `id`. -/
